@@ -10,7 +10,6 @@ import (
 	"fmt"
 	"math"
 	"math/big"
-	"runtime/debug"
 	"strconv"
 	"strings"
 	"sync/atomic"
@@ -69,7 +68,6 @@ func c05Group(s string, base int) ([]int, bool) {
 	if s == "" {
 		return nil, false
 	}
-	ds := make([]int, 0, len(s))
 	prevDigit := false
 	for i := 0; i < len(s); i++ {
 		if s[i] == '_' {
@@ -79,12 +77,16 @@ func c05Group(s string, base int) ([]int, bool) {
 			prevDigit = false
 			continue
 		}
-		v := c05DigitVal(s[i])
-		if v >= base {
+		if c05DigitVal(s[i]) >= base {
 			return nil, false
 		}
-		ds = append(ds, v)
 		prevDigit = true
+	}
+	ds := make([]int, 0, len(s))
+	for i := 0; i < len(s); i++ {
+		if s[i] != '_' {
+			ds = append(ds, c05DigitVal(s[i]))
+		}
 	}
 	return ds, true
 }
@@ -208,11 +210,10 @@ func c05UFloat(s string) (f float64, kind string, overflow, ok bool) {
 }
 
 // c05LiberalReal: generous recogniser of anything that might be meant as a
-// (non-rational) number, used only to decide what is NOT judged. t has no
-// underscores and no sign.
-func c05LiberalReal(t string) bool {
-	lt := strings.ToLower(t)
-	if lt == "inf" || lt == "infinity" || lt == "nan" {
+// (non-rational) number, used only to decide what is NOT judged. lt is lower
+// case, has no underscores and no sign.
+func c05LiberalReal(lt []byte) bool {
+	if w := string(lt); w == "inf" || w == "infinity" || w == "nan" {
 		return true
 	}
 	isDec := func(b byte) bool { return '0' <= b && b <= '9' }
@@ -260,18 +261,35 @@ func c05LiberalReal(t string) bool {
 	return i == len(lt)
 }
 
+// c05CouldBeNumber: after dropping every underscore and one leading sign, the
+// string is a liberal real, or two liberal reals (the second optionally signed)
+// joined by one slash.
 func c05CouldBeNumber(s string) bool {
-	t := strings.ReplaceAll(s, "_", "")
-	stripSign := func(t string) string {
-		if t != "" && (t[0] == '+' || t[0] == '-') {
+	var buf [48]byte
+	t := buf[:0]
+	for i := 0; i < len(s); i++ {
+		if s[i] != '_' {
+			t = append(t, c05Lower(s[i]))
+		}
+	}
+	stripSign := func(t []byte) []byte {
+		if len(t) > 0 && (t[0] == '+' || t[0] == '-') {
 			return t[1:]
 		}
 		return t
 	}
 	t = stripSign(t)
-	if strings.Contains(t, "/") {
-		parts := strings.Split(t, "/")
-		return len(parts) == 2 && c05LiberalReal(parts[0]) && c05LiberalReal(stripSign(parts[1]))
+	slash := -1
+	for i, b := range t {
+		if b == '/' {
+			if slash >= 0 {
+				return false
+			}
+			slash = i
+		}
+	}
+	if slash >= 0 {
+		return c05LiberalReal(t[:slash]) && c05LiberalReal(stripSign(t[slash+1:]))
 	}
 	return c05LiberalReal(t)
 }
@@ -287,8 +305,11 @@ func c05Classify(s string) c05Lit {
 		if strings.Contains(s, "_") {
 			feat = append(feat, 'u')
 		}
-		if strings.ToLower(s) != s {
-			feat = append(feat, 'c')
+		for i := 0; i < len(s); i++ {
+			if 'A' <= s[i] && s[i] <= 'Z' {
+				feat = append(feat, 'c')
+				break
+			}
 		}
 		lit.feat = string(feat)
 		return lit
@@ -300,12 +321,12 @@ func c05Classify(s string) c05Lit {
 }
 
 func c05classifyDoc(s string) c05Lit {
-	switch strings.ToLower(s) {
-	case "+inf":
+	switch {
+	case strings.EqualFold(s, "+inf"):
 		return c05Lit{verdict: 'D', kind: "inf", isFloat: true, f: math.Inf(1)}
-	case "-inf":
+	case strings.EqualFold(s, "-inf"):
 		return c05Lit{verdict: 'D', kind: "inf", isFloat: true, f: math.Inf(-1)}
-	case "nan":
+	case strings.EqualFold(s, "nan"):
 		return c05Lit{verdict: 'D', kind: "nan", isFloat: true, f: math.NaN()}
 	}
 	neg := false
@@ -819,8 +840,6 @@ var c05FloatMantissas = []string{"1", "9", "15", "1.5", "0.1", "0.5", "123.456",
 	"4.9", "2.4703282292062327", "2.4703282292062328", "2.2250738585072011", "2.2250738585072014", "0.000001", "5", "4.35", "0.3", "8.41", "100000000000000.0", "1000000000000000.0", "0.00001", "0.0001"}
 
 func TestVerifC05(t *testing.T) {
-	// the live heap is tiny and the cases allocate a lot: collect less often
-	defer debug.SetGCPercent(debug.SetGCPercent(3000))
 	vk.Run(t, "C05", "exploration", func(c *vk.Ctx) {
 		nLit := vk.Pick(c, 6, 7)
 		nLit2 := vk.Pick(c, 5, 6)
@@ -861,6 +880,10 @@ func TestVerifC05(t *testing.T) {
 			}
 		}
 
+		for _, s := range []string{"-0X1f", "0b1_0/0o7", "1.234_56e3", "-0e0", "010", "9223372036854775808", "1e309", "09"} {
+			c.Sample(fmt.Sprintf("num %q: oracle verdict %c, result %s", s, c05Classify(s).verdict, c05Show(vals.ParseNum(s))))
+		}
+
 		// (1) literal strings
 		l0 := vk.NewLocal()
 		for _, s := range c05Extra {
@@ -875,10 +898,7 @@ func TestVerifC05(t *testing.T) {
 			}
 			c.EnumSeqs(len(alpha), n, func(l *vk.Local, idx []int) {
 				s := vk.Join(alpha, idx)
-				lit, got := k.literal(l, s, fam, len(idx) <= 3)
-				if lit.verdict == 'D' && len(idx) == n && got != nil && lit.kind != "dec" && lit.feat != "" && (idx[0]*5+idx[1]*3+idx[2]*7+idx[3]*11+idx[4]*13)%211 == 5 {
-					c.Sample(fmt.Sprintf("%q -> %s", s, c05Show(got)))
-				}
+				k.literal(l, s, fam, len(idx) <= 3)
 			})
 		}
 
